@@ -732,17 +732,39 @@ func extractFacts(repo string) (*Facts, error) {
 	{
 		seen := map[string]int{}
 		for _, f := range closureFiles {
-			ast.Inspect(f, func(n ast.Node) bool {
-				call, ok := n.(*ast.CallExpr)
-				if !ok || len(call.Args) != 2 {
+			for _, decl := range f.Decls {
+				fd, ok := decl.(*ast.FuncDecl)
+				if !ok || fd.Body == nil {
+					continue
+				}
+				// locals of this function assigned exactly once (`fmter := conf.IssueFormatter`)
+				assigned := map[string][]string{}
+				ast.Inspect(fd.Body, func(n ast.Node) bool {
+					if as, ok := n.(*ast.AssignStmt); ok && len(as.Lhs) == len(as.Rhs) {
+						for i, l := range as.Lhs {
+							if id, ok := l.(*ast.Ident); ok {
+								assigned[id.Name] = append(assigned[id.Name], exprString(as.Rhs[i]))
+							}
+						}
+					}
 					return true
-				}
-				fn := exprString(call.Fun)
-				if fn == "NewExecCtx" || strings.HasSuffix(fn, ".NewExecCtx") {
-					seen[exprString(call.Args[1])]++
-				}
-				return true
-			})
+				})
+				ast.Inspect(fd.Body, func(n ast.Node) bool {
+					call, ok := n.(*ast.CallExpr)
+					if !ok || len(call.Args) != 2 {
+						return true
+					}
+					fn := exprString(call.Fun)
+					if fn == "NewExecCtx" || strings.HasSuffix(fn, ".NewExecCtx") {
+						arg := exprString(call.Args[1])
+						if id, ok := call.Args[1].(*ast.Ident); ok && len(assigned[id.Name]) == 1 {
+							arg = assigned[id.Name][0] // the one value the local was given
+						}
+						seen[arg]++
+					}
+					return true
+				})
+			}
 		}
 		for k := range seen {
 			fc.ExecCtxFormatters = append(fc.ExecCtxFormatters, k)
@@ -872,6 +894,43 @@ func extractFacts(repo string) (*Facts, error) {
 	{
 		var notes []string
 		okAll := true
+		// functions of utils.go that (transitively) read an issue's Message / hand issues to the pool
+		bodies := map[string]*ast.BlockStmt{}
+		for _, decl := range uf.Decls {
+			if fd, ok := decl.(*ast.FuncDecl); ok && fd.Body != nil {
+				bodies[fd.Name.Name] = fd.Body
+			}
+		}
+		reads, frees := map[string]bool{}, map[string]bool{"FreeIssue": true, "Put": true}
+		baseOf := func(call *ast.CallExpr) string {
+			fn := exprString(call.Fun)
+			return fn[strings.LastIndex(fn, ".")+1:]
+		}
+		for changed := true; changed; {
+			changed = false
+			for name, body := range bodies {
+				if strings.HasSuffix(name, "AndCollect") {
+					continue
+				}
+				r, f := reads[name], frees[name]
+				ast.Inspect(body, func(n ast.Node) bool {
+					switch x := n.(type) {
+					case *ast.SelectorExpr:
+						if x.Sel.Name == "Message" {
+							r = true
+						}
+					case *ast.CallExpr:
+						b := baseOf(x)
+						r = r || reads[b]
+						f = f || frees[b]
+					}
+					return true
+				})
+				if r != reads[name] || f != frees[name] {
+					reads[name], frees[name], changed = r, f, true
+				}
+			}
+		}
 		for _, name := range []string{"SanitizeMapAndCollect", "SanitizeListAndCollect"} {
 			fd := findFunc(uf, "issueHelpers", name)
 			if fd == nil || fd.Body == nil {
@@ -893,15 +952,14 @@ func extractFacts(repo string) (*Facts, error) {
 				if !ok {
 					return true
 				}
-				fn := exprString(call.Fun)
-				base := fn[strings.LastIndex(fn, ".")+1:]
+				base := baseOf(call)
 				switch {
-				case strings.HasPrefix(base, "Sanitize") && !strings.HasSuffix(base, "AndCollect"):
+				case reads[base] && !frees[base]:
 					if firstRead == token.NoPos {
 						firstRead = call.Pos()
 					}
 					lastRead = call.End()
-				case strings.HasPrefix(base, "Collect") || base == "FreeIssue" || base == "Put":
+				case frees[base]:
 					pos := call.Pos()
 					if deferred[call] {
 						pos = fd.Body.End()
